@@ -124,7 +124,8 @@ def _concat_parts(v):
 def _alias_rule(ctx, pkg):
     fn = pkg.method("Species", "alias")
     ctx.saw(SP, "Species.alias")
-    fl = Flow(fn, SP, resolver=lambda name: pkg.resolve("Species", name)[1])
+    # (the getter with the private helpers it was split into put back: `self._alias = self._build()` is the helper's statements)
+    fl = Flow(pkg.expanded("Species", "alias"), SP, resolver=lambda name: pkg.resolve("Species", name)[1])
     st = [f for f in fl.facts if f.kind == "attrstore" and f.target == "_alias"]
     out = {"ok": False, "sanitises": False, "line": fn.lineno}
     if not st:
